@@ -371,8 +371,12 @@ class MinDistanceThresholder(SoftBitThresholder):
         # Find closest reference point for each input value
         min_indices = torch.argmin(distances, dim=1)
 
-        # Map back to bit values (assuming ref_points[0] maps to bit 0)
-        result = min_indices.float()
+        # Map back to bit values (assuming ref_points[0] maps to bit 0); for LLRs the
+        # sign of the closest reference point carries the bit: negative means bit 1
+        if self.input_type == InputType.LLR:
+            result = (self.ref_points[min_indices] < 0).float()
+        else:
+            result = min_indices.float()
 
         # Reshape back to original dimensions
         return result.reshape(original_shape)
